@@ -137,7 +137,8 @@ def nontrivial(prog, steps):
 
 def main(argv):
     return rcheck.run(
-        PID, argv, module=None, theorems=[], gen=gen, oracle=oracle, nontrivial=nontrivial,
+        PID, argv, module="C11", theorems=["C11_no_runtime_panic_program", "C11_no_runtime_panic", "C11_no_runtime_panic_dispose", "C11_wf_init",
+                                        "C11_wf_preserved", "C11_no_stale_edges", "C11_guarded_sites"], gen=gen, oracle=oracle, nontrivial=nontrivial,
         rule=("fault injection: a Dispose of every nameable scope inserted at every statement position of every callback, cleanup "
               "and batch body of 3 base programs (one insertion per case, exhaustive); read-then-dispose programs; random programs "
               "with disposals from callbacks, cleanups and batches; non-trivial = a node was destroyed during a step that ran user "
